@@ -2,6 +2,7 @@ package checks
 
 import (
 	"fmt"
+	"math"
 	"sort"
 	"strings"
 
@@ -20,7 +21,10 @@ func init() { rt.Register(&c08{}) }
 
 func (c08) ID() string { return "C08" }
 
-var c08Kinds = []string{"plain", "plain-mget", "plain-full", "ordered", "aggr", "aggr-ordered", "delete", "delete-mget", "delete-full"}
+var c08Kinds = []string{"plain", "plain-mget", "plain-full", "ordered", "aggr", "aggr-ordered", "aggr-inter", "aggr-inter-ordered", "delete", "delete-mget", "delete-full"}
+
+// counts near the top of the integer range ("everything after the offset")
+var c08Huge = []int{math.MaxInt64, math.MaxInt64 - 1, 1 << 62}
 
 type c08Cell struct {
 	B    int
@@ -59,7 +63,7 @@ func (c08) NumCases(tier string) int    { return len(c08Cells(tier)) }
 func (c08) Exhaustive(tier string) bool { return true }
 
 func (c08) Rule() string {
-	return "exhaustive grid: per batch size B in {1,2,3} (quick) / {1,2,3,4,5,8} (thorough): offset 0..3B+1 x count 0..3B+1 x result size 0..4B+1; for B=32 offsets/counts/sizes around multiples of 32; x {plain over prefix/point-read/full scans, ordered with ties, aggregated, aggregated+ordered, delete over prefix/point-read/full scans} x {row, batch}; 'limit n' and 'limit 0,n' both used. A grid point is non-trivial when offset+count > 0 and the unlimited result is non-empty; distinct by (kind,B,r,s,n,mode)."
+	return "exhaustive grid: per batch size B in {1,2,3} (quick) / {1,2,3,4,5,8} (thorough): offset 0..3B+1 x count 0..3B+1 x result size 0..4B+1; for B=32 offsets/counts/sizes around multiples of 32; x {plain over prefix/point-read/full scans, ordered with ties, aggregated (one group per pair), aggregated with groups interleaved in key order, each also ordered, delete over prefix/point-read/full scans} x {row, batch}; 'limit n' and 'limit 0,n' both used; every offset also with counts MaxInt64, MaxInt64-1 and 2^62. A grid point is non-trivial when offset+count > 0 and the unlimited result is non-empty; distinct by (kind,B,r,s,n,mode)."
 }
 
 func (c08) Assumptions() []string {
@@ -74,6 +78,8 @@ func (c08) Gates(tier string, m map[string]int64) []rt.Gate {
 		rt.GateMin("delete grid points", m, "kind:delete", 100),
 		rt.GateMin("delete over point reads grid points", m, "kind:delete-mget", 100),
 		rt.GateMin("aggregate (limit pushed down) grid points", m, "kind:aggr", 100),
+		rt.GateMin("aggregate grid points with groups interleaved in key order", m, "kind:aggr-inter", 100),
+		rt.GateMin("grid points with a count near the top of the integer range", m, "huge_counts", 100),
 	}
 }
 
@@ -86,6 +92,11 @@ func c08Store(r int, kind string) []refstore.Pair {
 		v := fmt.Sprintf("v%03d", (i*7)%1000/3) // ties in runs
 		if kind == "aggr" || kind == "aggr-ordered" {
 			v = fmt.Sprintf("g%03d", (i*37)%997) // one group per pair, scrambled order
+		}
+		if strings.HasPrefix(kind, "aggr-inter") {
+			// about r/3 groups whose members are interleaved in key order: every group has
+			// members after the first member of every other group
+			v = fmt.Sprintf("h%03d", (i%((r+2)/3))*7%10)
 		}
 		ps = append(ps, refstore.Pair{K: fmt.Sprintf("k%03d", i), V: v})
 	}
@@ -119,8 +130,10 @@ func c08Base(kind string, r int) string {
 	switch kind {
 	case "ordered":
 		return "select key, value where " + w + " order by value desc"
-	case "aggr":
+	case "aggr", "aggr-inter":
 		return "select value, count(1), min(key) where " + w + " group by value"
+	case "aggr-inter-ordered":
+		return "select value, count(1) as c, sum(strlen(key)) where " + w + " group by value order by value"
 	case "aggr-ordered":
 		return "select value, count(1) as c, max(key) where " + w + " group by value order by value desc"
 	}
@@ -155,12 +168,16 @@ func (k c08) Run(c *rt.Ctx) {
 			}
 			continue
 		}
-		if len(un.Rows) != cell.R {
+		if len(un.Rows) != cell.R && !strings.HasPrefix(cell.Kind, "aggr-inter") {
 			c.Rec.NotJudged("unlimited result size differs from the steered size")
 		}
 		for _, s := range offs {
 			for _, n := range offs {
 				k.point(c, cell, pairs, mode, base, un, s, n)
+			}
+			for _, n := range c08Huge {
+				k.point(c, cell, pairs, mode, base, un, s, n)
+				c.Rec.Inc("huge_counts")
 			}
 		}
 	}
@@ -172,23 +189,24 @@ func (k c08) point(c *rt.Ctx, cell c08Cell, pairs []refstore.Pair, mode drive.Mo
 	if s == 0 && n%2 == 1 {
 		lim = fmt.Sprintf(" limit %d", n)
 	}
-	lo, hi := s, s+n
+	lo, hi := s, len(un.Rows)
 	if lo > len(un.Rows) {
 		lo = len(un.Rows)
 	}
-	if hi > len(un.Rows) {
-		hi = len(un.Rows)
+	if n < hi-lo { // no s+n: counts go up to MaxInt64
+		hi = lo + n
 	}
+	beyond := n > len(un.Rows) || s+n > len(un.Rows)
 	want := un.Rows[lo:hi]
 	rec.Inc("grid_points")
 	rec.Inc("kind:" + cell.Kind)
 	if s > 0 && s%cell.B == 0 {
 		rec.Inc("offset_multiple_of_B")
 	}
-	if s+n > len(un.Rows) {
+	if beyond {
 		rec.Inc("beyond_end")
 	}
-	if s+n > 0 && len(un.Rows) > 0 {
+	if (s > 0 || n > 0) && len(un.Rows) > 0 {
 		rec.DistinctS(fmt.Sprintf("%s/%d/%d/%d/%d/%v", cell.Kind, cell.B, cell.R, s, n, mode.Batch))
 	}
 	cluster := func(what string) string {
